@@ -338,7 +338,8 @@ def run_stream_shard(spec, acc, m, main, server, cap):
             server._set_client_id(0)
         cases += 1
         try:
-            r = c17_exec.run_stream_case(m, server, cap, case, clocks, acc.count)
+            r = c17_exec.run_stream_case(m, server, cap, case, clocks, acc.count,
+                                         main._main_lock)
             if r == 'timeout':
                 timeouts += 1
                 acc.count('stream_cases_timed_out')
